@@ -1,4 +1,99 @@
-import CrCube.Model.Slice
-import CrCube.Spec.SliceSpec
+/-
+  C01 — Cell values are faithful tabulations of the survey behind the response.
+  Property theorems only.  `Var.CM` = categorical (any missing flags, anywhere in the payload)
+  or multiple-response variable; `Var.ext` = number of valid elements / items.
+-/
+import CrCube.Lemmas.SpecFacts
+import CrCube.Lemmas.Tensor
+import CrCube.Props.C06
+
 namespace CrCube.C01
+open CrCube
+
+/-- 2-D: the weighted count of cell (i, j) is the weighted number of respondents who belong to
+    row element i AND column element j (selected the item, for multiple response). -/
+theorem counts_faithful_2d (R C : Var) (hR : R.CM) (hC : C.CM) (s : Survey) (i j : Nat)
+    (hi : i < R.ext) (hj : j < C.ext) :
+    (sliceCounts [R, C] (cubeOf [R, C] s) 0).counts i j
+      = .fin (specCount [R, C] s [i, j] [false, false]) := by
+  rw [slice2d_counts R C hR hC]
+  exact raw_counts R C hR hC s i j hi hj
+
+/-- 3-D: partition k, cell (i, j): respondents in table element k AND row i AND column j. -/
+theorem counts_faithful_3d (T R C : Var) (hT : T.CM) (hR : R.CM) (hC : C.CM) (s : Survey)
+    (k i j : Nat) (hk : k < T.ext) (hi : i < R.ext) (hj : j < C.ext) :
+    (sliceCounts [T, R, C] (cubeOf [T, R, C] s) k).counts i j
+      = .fin (specCount [T, R, C] s [k, i, j] [false, false, false]) := by
+  rw [C06.partition_restricts T R C hT hR hC s k hk, counts_faithful_2d R C hR hC _ i j hi hj,
+    C06.restrict_specCount T R C hT hR hC]
+
+/-- unweighted counts: the same statements for the survey with all weights 1 count respondents -/
+theorem ucounts_faithful_2d (R C : Var) (hR : R.CM) (hC : C.CM) (s : Survey) (i j : Nat)
+    (hi : i < R.ext) (hj : j < C.ext) :
+    (sliceCounts [R, C] (cubeOf [R, C] (unweight s)) 0).counts i j
+      = .fin (((s.filter fun r => specMemAll [R, C] r.ans [i, j] [false, false]).length : Nat) : Rat) := by
+  rw [counts_faithful_2d R C hR hC _ i j hi hj, specCount_unweight]
+
+theorem ucounts_faithful_3d (T R C : Var) (hT : T.CM) (hR : R.CM) (hC : C.CM) (s : Survey)
+    (k i j : Nat) (hk : k < T.ext) (hi : i < R.ext) (hj : j < C.ext) :
+    (sliceCounts [T, R, C] (cubeOf [T, R, C] (unweight s)) k).counts i j
+      = .fin (((s.filter fun r =>
+          specMemAll [T, R, C] r.ans [k, i, j] [false, false, false]).length : Nat) : Rat) := by
+  rw [counts_faithful_3d T R C hT hR hC _ k i j hk hi hj, specCount_unweight]
+
+/-- The extent of the partition is the number of VALID elements: missing categories never appear. -/
+theorem extent_is_valid_elements (R C : Var) (hR : R.CM) (hC : C.CM) (raw : FT) :
+    (sliceCounts [R, C] raw 0).nrows = R.ext ∧ (sliceCounts [R, C] raw 0).ncols = C.ext :=
+  ⟨slice2d_nrows R C hR hC raw, slice2d_ncols R C hR hC raw⟩
+
+/-- Categories flagged missing never contribute: a respondent whose answer on the (categorical)
+    rows variable is a missing category changes no cell and no base, wherever that category
+    sits in the payload. -/
+theorem missing_never_contributes (R C : Var) (hR : R.kind = .cat) (hC : C.CM) (s : Survey)
+    (r : Resp) (c : Nat) (aC : List Nat) (hr : r.ans = [[c], aC])
+    (hmiss : (validIdxs R.catMissing).contains c = false) (i j : Nat) (m1 m2 : Bool) :
+    specCount [R, C] (r :: s) [i, j] [m1, m2] = specCount [R, C] s [i, j] [m1, m2] := by
+  have hRM : R.CM := Or.inl hR
+  rw [specCount_two R C hRM hC, specCount_two R C hRM hC, wsum_cons]
+  have : R.specMem [c] [i] [m1] = false := by
+    simp only [Var.specMem, hR, Var.isValidPos, hmiss, Var.vpos]
+    cases m1
+    · simp only [Bool.false_eq_true, if_false, beq_eq_false_iff_ne, ne_eq]
+      intro h
+      have := List.mem_of_getElem? h
+      rw [← List.contains_iff_mem] at this
+      rw [this] at hmiss
+      exact absurd hmiss (by simp)
+    · simp
+  simp [hr, this]
+
+/-- Numeric measures (mean, sum, std-dev, median, valid counts) report exactly the value the
+    response carries for the cell: for ANY raw measure array the extractor reads the raw cell
+    at (valid position of row i [, selected plane]) × (valid position of column j [, selected]). -/
+theorem numeric_reports_payload (R C : Var) (hR : R.CM) (hC : C.CM) (raw : FT) (i j : Nat) :
+    (sliceCounts [R, C] raw 0).counts i j = raw.get (R.msub i ++ C.msub j) :=
+  slice2d_counts R C hR hC raw i j
+
+/-- The library receives the cube as a FLAT row-major list; reshaping it (numpy C order) and
+    indexing recovers the cell the back end tabulated. -/
+theorem flat_payload_reshape (vars : List Var) (s : Survey) (ix : List Nat)
+    (h : InRange (rawShapeOf vars) ix) :
+    (FT.ofFlat (rawShapeOf vars) (cubeFlat vars s)).get ix = (cubeOf vars s).get ix :=
+  FT.ofFlat_flat (cubeOf vars s) ix h
+
+-- non-vacuity: categorical rows with a missing category in mid-payload × multiple response
+example : (⟨.cat, 3, [false, true, false], false⟩ : Var).CM ∧
+    (⟨.arr, 2, [false, false, true], true⟩ : Var).CM ∧
+    (1 : Nat) < (⟨.cat, 3, [false, true, false], false⟩ : Var).ext ∧
+    (1 : Nat) < (⟨.arr, 2, [false, false, true], true⟩ : Var).ext :=
+  ⟨Or.inl rfl, Or.inr ⟨rfl, rfl, by decide⟩, by decide, by decide⟩
+
+-- a worked instance (test, not the claim): 3 respondents, row category at raw position 2 is
+-- valid element 1; the cell counts the weighted respondents there who selected item 0
+example :
+    let R : Var := ⟨.cat, 3, [false, true, false], false⟩
+    let C : Var := ⟨.arr, 2, [false, false, true], true⟩
+    let s : Survey := [⟨2, [[2], [0, 1]]⟩, ⟨1/2, [[2], [1, 0]]⟩, ⟨3, [[1], [0, 0]]⟩]
+    (sliceCounts [R, C] (cubeOf [R, C] s) 0).counts 1 0 = .fin 2 := by decide +kernel
+
 end CrCube.C01
